@@ -20,6 +20,18 @@ CHECKS = {
         note="Trusts the witness rules of DESIGN C05 (subset-existential witness for union alternatives).",
         ref="DESIGN.md section 4 C05",
     ),
+    "C06": dict(
+        technique="explicit enumeration of dict shapes (0..12 keys, string/non-string/mixed, nested, second-level merges) x k x 7 pipeline stages incl. the real tracer, SQLite store and CLI (bounded exhaustive, E1)",
+        text="Every dict shape of the grammar, alone and in multisets whose merged key sets straddle each limit, is pushed through get_type, shrink_types, the row and SQLite round trips, stub rendering, the real tracer and the CLI with the limit supplied only by the Config; every TypedDict node and rendered class is inspected.",
+        note="Assumes one Config (the same k) for tracing and stub generation; trusts ast for parsing stubs.",
+        ref="DESIGN.md section 4 C06",
+    ),
+    "C07": dict(
+        technique="explicit enumeration of a type grammar (unions of 2..8 members in every rotation) and of all inferred types x 7 rewriters + default chain + 49 chained pairs (bounded exhaustive, E1)",
+        text="Every grammar type and every distinct type inferred from grammar values is rewritten by every shipped rewriter, the default chain and every ordered pair; witnesses of the input must stay members, a change requires the documented trigger, chains must equal sequential composition.",
+        note="Reads C[Any] as the empty container (MonkeyType's convention); trusts witnesses()/member().",
+        ref="DESIGN.md section 4 C07",
+    ),
 }
 
 NOT_YET = {}
